@@ -255,20 +255,41 @@ def _s_write_headers(ctx):
     for p_ in ast.walk(f):
         for c_ in ast.iter_child_nodes(p_):
             parents[id(c_)] = p_
+    # the head writer and every method of the class it reaches through self.<m>() (e.g. a generator of the head lines that could not be inlined)
+    from sa.source import methods as _methods_of
+    rms = _methods_of(ctx.cls(P, "Request"))
+    helpers, todo = [], [f]
+    while todo:
+        fn = todo.pop()
+        for c in ast.walk(fn):
+            if isinstance(c, ast.Call) and isinstance(c.func, ast.Attribute) and src(c.func.value) == "self" and c.func.attr in rms and c.func.attr != "_writeHeaders":
+                h = rms[c.func.attr]
+                if not any(h is x for x in helpers):
+                    helpers.append(h)
+                    todo.append(h)
+    for h in helpers:
+        for p_ in ast.walk(h):
+            for c_ in ast.iter_child_nodes(p_):
+                parents[id(c_)] = p_
     n_use = 0
     for attr, val in (("method", "_ensureValidMethod"), ("uri", "_ensureValidURI")):
-        for x in ast.walk(f):
-            if isinstance(x, ast.Attribute) and x.attr == attr and src(x.value) == "self" and isinstance(x.ctx, ast.Load):
-                n_use += 1
-                par = parents.get(id(x))
-                ok = isinstance(par, ast.Call) and call_name(par) == val and len(par.args) == 1 and par.args[0] is x
-                ctx.check(ok, "sink/validated-at-sink", q + f" | self.{attr}", f"self.{attr} is used in the request head without passing {val}() at the sink (a value changed after construction is written unchecked)")
+        for fn in [f] + helpers:
+            for x in ast.walk(fn):
+                if isinstance(x, ast.Attribute) and x.attr == attr and src(x.value) == "self" and isinstance(x.ctx, ast.Load):
+                    n_use += 1
+                    par = parents.get(id(x))
+                    ok = isinstance(par, ast.Call) and call_name(par) == val and len(par.args) == 1 and par.args[0] is x
+                    where = q if fn is f else Q + "Request." + fn.name
+                    ctx.check(ok, "sink/validated-at-sink", where + f" | self.{attr}", f"self.{attr} is used in the request head without passing {val}() at the sink (a value changed after construction is written unchecked)")
     if n_use < 2:
-        raise Abstain("self.method / self.uri are not both read in the normalised _writeHeaders")
+        raise Abstain("self.method / self.uri are not both read in the head writer or the methods it calls")
     writes = [n for n, c in call_sites(g, lambda c: isinstance(c.func, ast.Attribute) and src(c.func.value) == tp)]
     if not writes:
         raise Abstain("no transport call found")
     refusals = [n for n, c in named_calls(g, "_ensureValidMethod", "_ensureValidURI")] + g.ids(lambda x: x.kind == "stmt" and isinstance(x.ast, ast.Raise))
+    can_refuse = {h.name for h in helpers if any(isinstance(x, ast.Raise) or (isinstance(x, ast.Call) and call_name(x) in ("_ensureValidMethod", "_ensureValidURI")) for x in ast.walk(h))}
+    # a helper that can refuse, called in a statement that does not itself hand its result to the transport, is a refusal point too
+    refusals += [n for n, c in call_sites(g, lambda c: isinstance(c.func, ast.Attribute) and src(c.func.value) == "self" and c.func.attr in can_refuse) if n not in writes]
     for wn in writes:
         w = g.path([wn], refusals, strict=True)
         ctx.check(w is None, "sink/refused-before-write", q + " | <transport write>", "something that can refuse the request runs after bytes were written", witness=g.describe(w))
@@ -528,6 +549,8 @@ def check(ctx):
                 fn(ctx)
             except InterpError as e:
                 raise AnalysisError(f"C24/{name}: the code uses a construct the evaluator cannot interpret: {e}")
+            except ModelRaised as e:
+                raise AnalysisError(f"C24/{name}: a scenario ended with {e.name} raised out of the interpreted code where the checker did not expect one ({e}): not judged")
 
 
 # ---- (a) validators --------------------------------------------------------------------------------------------------
